@@ -160,6 +160,14 @@ def c01(res, tier, seed):
         src = 'rule t { strings: $s = "%s" %s condition: #s >= 0 }' % (esc(pat, r), mods_text(m))
         bufs = [random_buffer(r, pat, m, 96 if small else 400) for _ in range(nbuf)]
         bufs += [b"", bytes(pat)]
+        # occurrences at the two ends of the buffer with exactly one (8-bit or wide) alphanumeric / other character beyond them: the
+        # word-boundary tests of `fullword` read the neighbours, which here are the first / last bytes of the data
+        vs = variants(r, pat, m)
+        for v in (vs[:2] + [r.choice(vs)]):
+            for edge in (b"d", b"d\x00", b"9\x00", b" ", b"\x00"):
+                if r.random() < (0.5 if tier == "quick" else 1.0):
+                    bufs.append(v + edge); bufs.append(edge + v)
+            bufs.append(b"x " + v + b" " + v + b"d")
         groups.append({"src": src, "bufs": bufs})
         metas.append((pat, m))
     t0 = time.time()
